@@ -163,6 +163,12 @@ class Live(JupyterMixin, RenderHook):
             try:
                 if self.auto_refresh and refresh_thread is not None:
                     refresh_thread.stop()
+                # print any partial line the redirect proxies still hold while the display is
+                # still live (it goes above the frame); otherwise it would be printed when the
+                # proxy is finalized, after the last frame, through a hook that is going away
+                for stream in (sys.stdout, sys.stderr):
+                    if isinstance(stream, FileProxy):
+                        stream.flush()
                 # allow it to fully render on the last even if overflow
                 vertical_overflow = self.vertical_overflow
                 self.vertical_overflow = "visible"
